@@ -252,11 +252,56 @@ func c03Lip(args []string) error {
 	}
 	rnd := rand.New(rand.NewSource(seed()*32452843 + 3))
 	u := func(a, b float64) float64 { return a + (b-a)*rnd.Float64() }
-	for _, ps := range sdfCatalogue(seed(), k) {
+	shapes := sdfCatalogue(seed(), k)
+	// union / difference / intersection with the polynomial blend installed (the property lists them as 1-Lipschitz);
+	// the operands' own boxes are remembered: half of the pairs of these shapes straddle a face of an operand's box
+	faces := map[string][]sdf.Box3{}
+	cb := &catBuilder{rnd: rand.New(rand.NewSource(seed()*15485863 + 31))}
+	for i := 0; i < 6*k; i++ {
+		a3, an := cb.placedSolid(i)
+		sh := v3.Vec{X: cb.u(-1, 1), Y: cb.u(-1, 1), Z: cb.u(-0.5, 0.5)}
+		b3 := sdf.Transform3D(a3, sdf.Translate3d(sh))
+		if i%2 == 1 {
+			b3, _ = cb.placedSolid(i + 7)
+		}
+		kb := cb.u(0.1, 0.8)
+		var s3 sdf.SDF3
+		var ctor string
+		switch i % 3 {
+		case 0:
+			s3, ctor = sdf.Union3D(a3, b3), "Union3D+PolyMin"
+			s3.(*sdf.UnionSDF3).SetMin(sdf.PolyMin(kb))
+		case 1:
+			s3, ctor = sdf.Difference3D(a3, b3), "Difference3D+PolyMax"
+			s3.(*sdf.DifferenceSDF3).SetMax(sdf.PolyMax(kb))
+		default:
+			s3, ctor = sdf.Intersect3D(a3, b3), "Intersect3D+PolyMax"
+			s3.(*sdf.IntersectionSDF3).SetMax(sdf.PolyMax(kb))
+		}
+		nm := fmt.Sprintf("%s/k=%.3g/%d", an, kb, i)
+		shapes = append(shapes, probeShape{Name: nm, Ctor: ctor, S3: s3})
+		faces[ctor+nm] = []sdf.Box3{a3.BoundingBox(), b3.BoundingBox()}
+		a2, pn := cb.placedProfile(i)
+		b2 := sdf.Transform2D(a2, sdf.Translate2d(v2.Vec{X: sh.X, Y: sh.Y}))
+		var s2 sdf.SDF2
+		switch i % 3 {
+		case 0:
+			s2, ctor = sdf.Union2D(a2, b2), "Union2D+PolyMin"
+			s2.(*sdf.UnionSDF2).SetMin(sdf.PolyMin(kb))
+		case 1:
+			s2, ctor = sdf.Difference2D(a2, b2), "Difference2D+PolyMax"
+			s2.(*sdf.DifferenceSDF2).SetMax(sdf.PolyMax(kb))
+		default:
+			s2, ctor = sdf.Intersect2D(a2, b2), "Intersect2D+PolyMax"
+			s2.(*sdf.IntersectionSDF2).SetMax(sdf.PolyMax(kb))
+		}
+		shapes = append(shapes, probeShape{Name: fmt.Sprintf("%s/k=%.3g/%d", pn, kb, i), Ctor: ctor, S2: s2})
+	}
+	for _, ps := range shapes {
 		if ps.Err != "" {
 			continue
 		}
-		ok := lipCtors[ps.Ctor] || (strings.HasPrefix(ps.Ctor, "Transform") && strings.HasPrefix(ps.Name, "rot:"))
+		ok := lipCtors[ps.Ctor] || strings.Contains(ps.Ctor, "+Poly") || (strings.HasPrefix(ps.Ctor, "Transform") && strings.HasPrefix(ps.Name, "rot:"))
 		if !ok {
 			continue
 		}
@@ -279,6 +324,27 @@ func c03Lip(args []string) error {
 					p := v3.Vec{X: c.X + u(-1, 1)*sz.X, Y: c.Y + u(-1, 1)*sz.Y, Z: c.Z + u(-1, 1)*sz.Z}
 					d := v3.Vec{X: rnd.NormFloat64(), Y: rnd.NormFloat64(), Z: rnd.NormFloat64()}.Normalize().MulScalar(step)
 					q := p.Add(d)
+					if fb := faces[ps.Ctor+ps.Name]; fb != nil && j%2 == 1 {
+						// p and q on either side of a face of an operand's bounding box, near that box
+						ob := fb[rnd.Intn(len(fb))]
+						oc, os := ob.Center(), ob.Size().MulScalar(0.5).AddScalar(0.4)
+						p = v3.Vec{X: oc.X + u(-1, 1)*os.X, Y: oc.Y + u(-1, 1)*os.Y, Z: oc.Z + u(-1, 1)*os.Z}
+						lo, hi := [3]float64{ob.Min.X, ob.Min.Y, ob.Min.Z}, [3]float64{ob.Max.X, ob.Max.Y, ob.Max.Z}
+						ax, side := rnd.Intn(3), rnd.Intn(2)
+						fc := lo[ax]
+						if side == 1 {
+							fc = hi[ax]
+						}
+						q = p
+						switch ax {
+						case 0:
+							p.X, q.X = fc-step/2, fc+step/2
+						case 1:
+							p.Y, q.Y = fc-step/2, fc+step/2
+						default:
+							p.Z, q.Z = fc-step/2, fc+step/2
+						}
+					}
 					f0, f1, dist = ps.S3.Evaluate(p), ps.S3.Evaluate(q), q.Sub(p).Length()
 					desc = fmt.Sprintf("p=%v q=%v", p, q)
 				} else {
